@@ -47,6 +47,16 @@ theorem mcolOf_append_last (pre post : List Node) (d n s : Nat) (st : ColStyle)
   | nil => simp [mcolOf, hpost, mkT, Node.kind, Node.tok]
   | cons p ps ih => simp [mcolOf, ih]
 
+theorem linkRow_eq (ncols : Nat) : ∀ (cells : List CellR) (c : Nat), linkRow ncols c cells = linkSpec ncols c cells := by
+  intro cells
+  induction cells with
+  | nil => intro c; simp [linkRow, linkSpec, colStarts]
+  | cons x xs ih =>
+    intro c
+    have := ih (c + x.span)
+    simp only [linkSpec] at this
+    simp [linkRow, linkSpec, colStarts, this]
+
 def styleCell (specs : List ColStyle) (c : CellR) : CellR :=
   specs.foldl (fun (c : CellR) s => { c with style := styleUpdate c.style (c.own.getD s) }) c
 
@@ -202,5 +212,156 @@ theorem applyBordersTable_core (spec : List ColStyle) (rows : List RowR) :
     (applyBordersTable spec rows).map rowCore = (rows.filter (!rowBorderOnly ·)).map rowCore := by
   unfold applyBordersTable
   exact filter_core _ _ (tableLoop_core walk walk_corePres spec _ _ _ rows)
+
+
+/-! ### the index/mutation loop of `Array.applyBorders` refines the structural `specTable` -/
+
+theorem getElem?_pre {α} (pre : List α) (x : α) (post : List α) : (pre ++ x :: post)[pre.length]? = some x := by
+  induction pre with
+  | nil => rfl
+  | cons p ps ih => simpa using ih
+
+theorem set_pre {α} (pre : List α) (x y : α) (post : List α) : (pre ++ x :: post).set pre.length y = pre ++ y :: post := by
+  induction pre with
+  | nil => rfl
+  | cons p ps ih => simpa using ih
+
+theorem modifyAt_pre (pre : List RowR) (x : RowR) (post : List RowR) (f : RowR → RowR) :
+    modifyAt (pre ++ x :: post) pre.length f = pre ++ f x :: post := by
+  unfold modifyAt
+  rw [getElem?_pre]
+  exact set_pre pre x (f x) post
+
+theorem rowBorderOnly_applyRow (src : RowR) (g : Option Loc) (r : RowR) :
+    rowBorderOnly (applyRow walk src g r) = rowBorderOnly r :=
+  rowBorderOnly_core _ _ (applyRow_core walk walk_corePres src g r)
+
+theorem rowBorderOnly_ownRow (spec : List ColStyle) (r : RowR) : rowBorderOnly (ownRow spec r) = rowBorderOnly r := by
+  unfold ownRow
+  apply rowBorderOnly_core
+  unfold rowCore
+  rw [styleRow_core, applyRow_core walk walk_corePres]
+
+def keep (rows : List RowR) : List RowR := rows.filter (!rowBorderOnly ·)
+
+theorem keep_append (a b : List RowR) : keep (a ++ b) = keep a ++ keep b := by simp [keep]
+
+theorem keep_allBO (b : List RowR) (h : ∀ x ∈ b, rowBorderOnly x = true) : keep b = [] := by
+  simp only [keep, List.filter_eq_nil_iff]
+  intro x hx; simp [h x hx]
+
+/-- the loop from position `i > 0` on: `D` finished rows, `cur` the last content row (at index
+    `D.length`, what `prev` points to), `B` the rule-only rows after it, `post` not yet visited -/
+theorem tableLoop_from (spec : List ColStyle) :
+    ∀ (post D : List RowR) (cur : Option RowR) (B : List RowR) (k i : Nat) (rows : List RowR),
+      rows = (D ++ cur.toList ++ B) ++ post →
+      i = (D ++ cur.toList ++ B).length →
+      post.length ≤ k →
+      (∀ b ∈ B, rowBorderOnly b = true) →
+      (∀ r, cur = some r → rowBorderOnly r = false) →
+      0 < i →
+      keep (tableLoop walk spec k i (cur.map fun _ => D.length) rows) = keep D ++ specRows spec cur post := by
+  intro post
+  induction post with
+  | nil =>
+    intro D cur B k i rows hrows hi _ hB hcur _
+    have hres : tableLoop walk spec k i (cur.map fun _ => D.length) rows = rows := by
+      cases k with
+      | zero => simp [tableLoop]
+      | succ k =>
+        rw [tableLoop]
+        have : rows[i]? = none := by rw [hrows, hi]; simp
+        simp [this]
+    rw [hres, hrows, List.append_nil, keep_append, keep_append, keep_allBO B hB]
+    cases cur with
+    | none => simp [specRows, keep]
+    | some r => simp [specRows, keep, hcur r rfl]
+  | cons x rest ih =>
+    intro D cur B k i rows hrows hi hk hB hcur hpos
+    obtain ⟨k', rfl⟩ : ∃ k', k = k' + 1 := ⟨k - 1, by simp at hk; omega⟩
+    have hk' : rest.length ≤ k' := by simp at hk; omega
+    have hne : (i == 0) = false := by
+      cases i with
+      | zero => omega
+      | succ n => rfl
+    have hget : rows[i]? = some x := by rw [hrows, hi]; exact getElem?_pre _ x rest
+    rw [tableLoop, hget]
+    simp only
+    by_cases hx : rowBorderOnly x = true
+    · simp only [hx, if_true, hne, Bool.false_and, Bool.false_eq_true, if_false]
+      have hB' : ∀ b ∈ B ++ [x], rowBorderOnly b = true := by
+        intro b hb; rcases List.mem_append.mp hb with h | h
+        · exact hB b h
+        · simp at h; subst h; exact hx
+      cases cur with
+      | none =>
+        simp only [Option.map_none]
+        have := ih D none (B ++ [x]) k' (i + 1) rows (by rw [hrows]; simp) (by rw [hi]; simp; omega) hk' hB'
+          (by intro r h; cases h) (by omega)
+        simp only [Option.map_none] at this
+        rw [this]; simp [specRows, hx]
+      | some r =>
+        simp only [Option.map_some]
+        have hmod : modifyAt rows D.length (applyRow walk x (some .bottom))
+            = (D ++ (some (applyRow walk x (some .bottom) r)).toList ++ (B ++ [x])) ++ rest := by
+          have := modifyAt_pre D r (B ++ x :: rest) (applyRow walk x (some .bottom))
+          rw [hrows]; simpa [List.append_assoc] using this
+        have := ih D (some (applyRow walk x (some .bottom) r)) (B ++ [x]) k' (i + 1) _ hmod
+          (by rw [hi]; simp; omega) hk' hB'
+          (by intro r' h; cases h; rw [rowBorderOnly_applyRow]; exact hcur r rfl) (by omega)
+        simp only [Option.map_some] at this
+        rw [this]; simp [specRows, hx]
+    · have hx' : rowBorderOnly x = false := by simpa using hx
+      simp only [hx', Bool.false_eq_true, if_false]
+      have hset : rows.set i (styleRow spec (applyRow walk x none x))
+          = ((D ++ cur.toList ++ B) ++ (some (ownRow spec x)).toList ++ []) ++ rest := by
+        rw [hrows, hi, set_pre]; simp [ownRow]
+      have := ih (D ++ cur.toList ++ B) (some (ownRow spec x)) [] k' (i + 1) _ hset
+        (by rw [hi]; simp; omega) hk' (by intro b h; cases h)
+        (by intro r' h; cases h; exact (rowBorderOnly_ownRow spec x).trans hx') (by omega)
+      simp only [Option.map_some, ← hi] at this
+      rw [this, keep_append, keep_append, keep_allBO B hB]
+      cases cur with
+      | none => simp [specRows, hx', keep]
+      | some r => simp [specRows, hx', keep, hcur r rfl]
+
+theorem applyBordersTable_eq_spec (spec : List ColStyle) (rows : List RowR) :
+    applyBordersTable spec rows = specTable spec rows := by
+  unfold applyBordersTable
+  show keep _ = _
+  cases rows with
+  | nil => simp [tableLoop, specTable, specRows, keep]
+  | cons x rest =>
+    simp only [List.length_cons]
+    rw [tableLoop]
+    simp only [List.getElem?_cons_zero]
+    by_cases hx : rowBorderOnly x = true
+    · have hBx : ∀ b ∈ [x], rowBorderOnly b = true := by intro b h; simp at h; subst h; exact hx
+      cases rest with
+      | nil =>
+        have hc : (((0 : Nat) == 0) && (([] : List RowR).length + 1 - 1 != 0)) = false := by simp
+        simp only [hx, if_true, hc, Bool.false_eq_true, if_false]
+        have := tableLoop_from spec [] [] none [x] 0 1 [x] (by simp) (by simp) (by simp) hBx (by intro r h; cases h) (by omega)
+        simpa [specTable, specRows, hx, keep] using this
+      | cons y rest' =>
+        have hm : modifyAt (x :: y :: rest') 1 (applyRow walk x (some .top)) = x :: applyRow walk x (some .top) y :: rest' := by
+          simp [modifyAt]
+        have hc : (((0 : Nat) == 0) && ((y :: rest').length + 1 - 1 != 0)) = true := by simp
+        simp only [hx, if_true, hc, hm]
+        have := tableLoop_from spec (applyRow walk x (some .top) y :: rest') [] none [x] (rest'.length + 1) 1
+          (x :: applyRow walk x (some .top) y :: rest') (by simp) (by simp) (by simp) hBx (by intro r h; cases h) (by omega)
+        simpa [specTable, hx, keep] using this
+    · have hx' : rowBorderOnly x = false := by simpa using hx
+      simp only [hx', Bool.false_eq_true, if_false, List.set_cons_zero]
+      have := tableLoop_from spec rest [] (some (ownRow spec x)) [] rest.length 1 (ownRow spec x :: rest)
+        (by simp) (by simp) (Nat.le_refl _)
+        (by intro b h; cases h) (by intro r h; cases h; exact (rowBorderOnly_ownRow spec x).trans hx') (by omega)
+      simp only [Option.map_some, List.length_nil] at this
+      have hs : specTable spec (x :: rest) = specRows spec none (x :: rest) := by
+        cases rest with
+        | nil => rfl
+        | cons y r' => simp [specTable, hx']
+      rw [hs]
+      simpa [specRows, hx', keep, ownRow] using this
 
 end PlasVerif.Proofs.Arrays
